@@ -23,6 +23,13 @@ ISA['operand_sets'] = dict(ISA['operand_sets'], imm4={'operand_values': {'i4': {
 ISA['operand_sets']['rel_c'] = {'operand_values': {'rc': {'type': 'relative_address', 'use_curly_braces': True,
                                                            'argument': {'size': 8, 'byte_align': True}}}}
 ISA['instructions'] = dict(ISA['instructions'], brc={'bytecode': {'value': 0x91, 'size': 8}, 'operands': {'count': 1, 'operand_sets': {'list': ['rel_c']}}})
+ISA['operand_sets']['spx'] = {'operand_values': {'sx': {'type': 'indirect_register', 'register': 'sp', 'bytecode': {'value': 3, 'size': 4},
+                                                        'offset': {'size': 8, 'byte_align': True}},
+                                                 'sxi': {'type': 'indirect_indexed_register', 'register': 'b', 'bytecode': {'value': 4, 'size': 4},
+                                                         'index_operands': {'i': {'type': 'numeric', 'argument': {'size': 8, 'byte_align': True}}}},
+                                                 'xi': {'type': 'indexed_register', 'register': 'a', 'bytecode': {'value': 5, 'size': 4},
+                                                        'index_operands': {'i': {'type': 'numeric', 'argument': {'size': 8, 'byte_align': True}}}}}}
+ISA['instructions'] = dict(ISA['instructions'], lds={'bytecode': {'value': 0xB, 'size': 4}, 'operands': {'count': 1, 'operand_sets': {'list': ['spx']}}})
 # an operand-less instruction declared with an explicit empty operands block
 ISA['instructions'] = dict(ISA['instructions'], hlt0={'bytecode': {'value': 0x92, 'size': 8}, 'operands': {'count': 0}})
 ISA['instructions'] = dict(ISA['instructions'], n4={'bytecode': {'value': 0x3, 'size': 4}, 'operands': {'count': 1, 'operand_sets': {'list': ['imm4']}}})
@@ -32,7 +39,7 @@ ISA['predefined'] = {'memory_zones': [{'name': 'zz', 'start': 0x40, 'end': 0x5F}
 
 BASES = {
     'code': ['start: nop', '    ldi a, 5', '.loop:', '    ldi b, val+1', '    brr .loop', '    jmp start', '    push a',
-             '    ldm [val]', '    sel foo', '    n12 3', '    n4 7', '    hlt0', '    brc {start}', 'val: .byte 1, 2, $1F', '    .2byte start, val'],
+             '    ldm [val]', '    sel foo', '    n12 3', '    n4 7', '    hlt0', '    brc {start}', '    lds [sp+2]', '    lds [b + val]', '    lds a + 1', 'val: .byte 1, 2, $1F', '    .2byte start, val'],
     'control': ['#define SA 1', '#define SB SA', '#if SA == 1', '    .byte 1', '#elif SB', '    .byte 2', '#else', '    .byte 3', '#endif',
                 '#ifdef PRE', '    .byte SB', '#endif', '#ifndef NOPE', 'K = 4', '#endif', '    .byte K'],
     'layout': ['    .org $10', 'a1: .byte 1', '    .align 8', '    .fill 3, $55', '    .zero 2', '    .zerountil $25', '    .memzone zz',
@@ -81,7 +88,7 @@ def must_reject(lines):
             if t in ('nop', 'hlt0') and line.strip() == t:
                 for extra in ('5', 'a', 'val', '[5]', 'val, 5'):
                     out.append((f'line {i}: operand {extra!r} after {t}, which takes none', lines[:i] + [f'    {t} {extra}'] + lines[i + 1:]))
-            if t in ('nop', 'ldi', 'brr', 'jmp', 'push', 'ldm', 'sel', 'n12', 'n4', 'mac', 'hlt0', 'brc'):
+            if t in ('nop', 'ldi', 'brr', 'jmp', 'push', 'ldm', 'sel', 'n12', 'n4', 'mac', 'hlt0', 'brc', 'lds'):
                 out.append((f'line {i}: mnemonic {t} := unknown word', lines[:i] + [''.join(toks[:k] + ['qqq'] + toks[k + 1:])] + lines[i + 1:]))
         m = re.match(r'^(\s*(?:\w+:\s*)?)(ldi|push|ldm|sel|n12|n4|brr|jmp)\s+(.*)$', line)
         if m:
@@ -130,7 +137,8 @@ def long_words(n):
     for t in (w, ws):
         out += [f'    brc {{{t}', f'    brc {{{t} +', f'    ldm [{t}', f'    ldm [[{t}]', f'    jmp ({t}', f'    jmp (({t})', f'    .byte "{t}',
                 f"    .cstr '{t}", f'    ldi a, ({t}', f'    sel {t}', f'    push {t}', f'    mac a, {{{t}', f'#include "{t}', f'#define LW ({t}',
-                f'    .org ({t}', f'    "{t}', f'{t}', f'{t}:{t}']
+                f'    .org ({t}', f'    "{t}', f'{t}', f'{t}:{t}', f'    lds [sp + {t}', f'    lds [sp - {t} +', f'    lds [sp+{t}] {t}',
+                f'    lds [b + {t}', f'    lds a + {t} )', f'    lds [[{t}', f'    sel {t} {t}']
     return out
 
 
@@ -142,7 +150,7 @@ def meta(tier):
                 'directive at each position, and the four must-reject replacements (undefined label, unknown mnemonic, operands no '
                 'variant accepts, value just outside its field on either side), a directive with an unresolvable label inserted at each '
                 'position (also directives that emit nothing: .fill 0, x); expression-length family (N in 8,16,24,32,64 tokens in every expression position); long-word family (an operand, string or '
-                'bracket that is opened and never closed, followed by one word of 16..64 characters or many short ones, in 18 positions); '
+                'bracket that is opened and never closed, followed by one word of 16..64 characters or many short ones, in 25 positions); '
                 'empty-image family (5 programs that assemble to no byte at all x configurations x output pre-seeded / absent: the image must exist afterwards); '
                 'wide-address family (address widths 24/32/40/64 x code at 7 addresses around 2^16, 2^24, 2^32, 2^40, 2^48 x every format, where a '
                 'format may be unable to express the address and the failure arises while the outputs are produced); each '
